@@ -112,14 +112,14 @@ PROPERTIES = {
         "classes": ["DATASET_ITEM_MISMATCH", "DATASET_WRITE_OUTSIDE", "DATASET_MODEL_DISAGREE", "DIGEST_MISMATCH", "TSAN_RACE", "ASM_GLOBAL_RACE", "UNEXPECTED_NULL"] + CRASH,
         "rule": "seeded plans: disjoint target ranges (counts 0-3, multiples and non-multiples of 4, last item, page-straddling, adjacent), a partition into init_dataset calls, assignment to 1-4 simulated threads and a schedule; "
                 "poisoned prepared region, inaccessible remainder; oracle: requested items == initDatasetItem on a fresh cache == independent spec reading, everything else still poison; "
-                "a case is one (plan, schedule); distinct_nontrivial counts distinct plan shapes",
+                "a case is one (plan, schedule); distinct_nontrivial counts distinct plan shapes; the keysweep batch additionally sweeps random keys (24 per plan, a small compiled/interpreted range each) - an input sweep, not a schedule/fault dimension",
         "assumptions": ["write-set containment plus read-only inputs make the result independent of the interleaving; one serialised schedule per plan is executed",
                         "the independent spec reading uses the cache's SuperscalarHash instruction lists and reciprocal table (their generation is C09/C18)"],
         "expected_probes": ["dataset_branch_lt4", "dataset_branch_mult4", "dataset_branch_tail", "dataset_last_item", "ds_items_checked", "ds_poison_checked"],
         "tiers": {
-            "quick": [B("plain-small-a", "plain", "small-a", 4000, 30), B("plain-small-b", "plain", "small-b", 1500, 10), B("tsan-small-a", "tsan", "small-a", 600, 20),
+            "quick": [B("plain-small-a", "plain", "small-a", 4000, 30), B("plain-small-b", "plain", "small-b", 1500, 10), B("keysweep-small-a", "plain", "small-a", 100000, 25, mode="keysweep"), B("tsan-small-a", "tsan", "small-a", 600, 20),
                       B("plain-shipped", "plain", "shipped", 64, 40, workers=8, gate=4)],
-            "thorough": [B("plain-small-a", "plain", "small-a", 150000, 300), B("plain-small-b", "plain", "small-b", 60000, 120), B("tsan-small-a", "tsan", "small-a", 20000, 240),
+            "thorough": [B("plain-small-a", "plain", "small-a", 150000, 300), B("plain-small-b", "plain", "small-b", 60000, 120), B("keysweep-small-a", "plain", "small-a", 1000000, 300, mode="keysweep"), B("tsan-small-a", "tsan", "small-a", 20000, 240),
                          B("plain-shipped", "plain", "shipped", 2000, 420, workers=8, gate=8), B("contract-audit", "assert", "small-a", 3000, 40)],
         },
     },
